@@ -4,6 +4,8 @@
   replayable bytes (`SpecReplay.lean`).
 -/
 import PdshVerif.Cbuf.Replay
+import PdshVerif.Cbuf.Wrapped
+import PdshVerif.Cbuf.ReplayLine
 
 namespace PdshVerif.Cbuf
 
@@ -14,15 +16,20 @@ inductive OpR where
   | peekToFd (len : Int) (cap : Nat)
   | readToFd (len : Int) (cap : Nat)
   | replayToFd (len : Int) (cap : Nat)
+  | replayLine (len lines : Int)
+  | rewindLine (len lines : Int)
   deriving Repr
 
-def stepMR (c : Cbuf) : OpR → Out × Cbuf
-  | .base op => stepM c op
+def stepMR (c : Cbuf) (op : OpR) (pol : Policy := chunkPolicy) : Out × Cbuf :=
+  match op with
+  | .base op => stepM c op pol
   | .replay len => let (r, bs) := replay c len; ({ ret := r, bytes := some bs }, c)
   | .rewind len => let (r, c') := rewind c len; ({ ret := r }, c')
   | .peekToFd len cap => let (r, bs) := peekToFd c len cap; ({ ret := r, bytes := some bs }, c)
   | .readToFd len cap => let (r, bs, c') := readToFd c len cap; ({ ret := r, bytes := some bs }, c')
   | .replayToFd len cap => let (r, bs) := replayToFd c len cap; ({ ret := r, bytes := some bs }, c)
+  | .replayLine len lines => let (r, o) := replayLine c len lines; ({ ret := r, bytes := o }, c)
+  | .rewindLine len lines => let (r, c') := rewindLine c len lines; ({ ret := r }, c')
 
 /-- the line `cbuf_write_line` appends for the string `s` -/
 def lineOf (s : List UInt8) : List UInt8 :=
@@ -44,15 +51,28 @@ def histAfterBase (r : Spec.RFifo) (op : Op) (o : Out) (f' : Spec.Fifo) : List U
   | .optSet _ => r.hist
   | .flush => []
 
+/-- the `wrapped` flag under an operation of the base set: a writing operation sets it as soon as
+    history + unread + physically stored bytes exceed the capacity; flushing clears it -/
+def wrappedAfterBase (r : Spec.RFifo) (op : Op) (o : Out) (f' : Spec.Fifo) : Bool :=
+  match op with
+  | .write _ => Spec.wrappedAfterWrite r o.ret.toNat f'
+  | .writeFromFd _ _ _ => Spec.wrappedAfterWrite r o.ret.toNat f'
+  | .writeLine s => Spec.wrappedAfterWrite r (if o.ret < 0 then 0 else min (lineOf s).length f'.size) f'
+  | .flush => false
+  | _ => r.wrapped
+
 def stepSR (r : Spec.RFifo) (op : OpR) (implRet : Int) (implSize : Nat) : Option (Out × Spec.RFifo) :=
   match op with
   | .base op =>
-    (stepS r.f op implRet implSize).map fun (o, f') => (o, { f := f', hist := histAfterBase r op o f' })
+    (stepS r.f op implRet implSize).map fun (o, f') =>
+      (o, { f := f', hist := histAfterBase r op o f', wrapped := wrappedAfterBase r op o f' })
   | .replay len => let (n, bs) := Spec.replay r len; some ({ ret := n, bytes := some bs }, r)
   | .rewind len => let (n, r') := Spec.rewind r len; some ({ ret := n }, r')
   | .peekToFd len cap => let (n, bs) := Spec.peekToFd r len cap; some ({ ret := n, bytes := some bs }, r)
   | .readToFd len cap => let (n, bs, r') := Spec.readToFd r len cap; some ({ ret := n, bytes := some bs }, r')
   | .replayToFd len cap => let (n, bs) := Spec.replayToFd r len cap; some ({ ret := n, bytes := some bs }, r)
+  | .replayLine len lines => let (n, o) := Spec.replayLine r len lines; some ({ ret := n, bytes := o }, r)
+  | .rewindLine len lines => let (n, r') := Spec.rewindLine r len lines; some ({ ret := n }, r')
 
 /-! ### the history component under the base operations -/
 
@@ -104,38 +124,42 @@ theorem consume_dropLine (c : Cbuf) (len lines : Int) :
 theorem whole_unchanged {c : Cbuf} (hi : Inv c) : whole c = Spec.lastN c.size (whole c ++ []) := by
   rw [List.append_nil, lastN_all _ _ (whole_le hi)]
 
-theorem write_whole {c : Cbuf} (hi : Inv c) (bs : List UInt8) :
-    whole (write c bs).2.2 = Spec.lastN (write c bs).2.2.size (whole c ++ bs.take (write c bs).1.toNat) := by
+theorem write_whole {c : Cbuf} (hi : Inv c) (bs : List UInt8) (pol : Policy := chunkPolicy) [Admissible pol] :
+    whole (write c bs pol).2.2 =
+      Spec.lastN (write c bs pol).2.2.size (whole c ++ bs.take (write c bs pol).1.toNat) := by
   unfold write
   by_cases h : bs.length = 0
   · simp only [h, if_true, Int.toNat_zero, List.take_zero]
     exact whole_unchanged hi
   · simp only [h, if_false]
-    exact writer_whole hi bs.length (by omega) (.mem bs) (by simp [Src.ok])
+    exact writer_whole hi bs.length (by omega) (.mem bs) (by simp [Src.ok]) pol
 
-theorem wfd_core {c : Cbuf} (hi : Inv c) (l : Nat) (av : List UInt8) (eof : Bool) :
-    whole (if l > 0 then ((writer c l (.fd av eof)).ret, (writer c l (.fd av eof)).ndropped, (writer c l (.fd av eof)).c)
+theorem wfd_core {c : Cbuf} (hi : Inv c) (l : Nat) (av : List UInt8) (eof : Bool)
+    (pol : Policy := chunkPolicy) [Admissible pol] :
+    whole (if l > 0 then ((writer c l (.fd av eof) pol).ret, (writer c l (.fd av eof) pol).ndropped, (writer c l (.fd av eof) pol).c)
         else ((0 : Int), 0, c)).2.2 =
-      Spec.lastN (if l > 0 then ((writer c l (.fd av eof)).ret, (writer c l (.fd av eof)).ndropped, (writer c l (.fd av eof)).c)
+      Spec.lastN (if l > 0 then ((writer c l (.fd av eof) pol).ret, (writer c l (.fd av eof) pol).ndropped, (writer c l (.fd av eof) pol).c)
         else ((0 : Int), 0, c)).2.2.size
-        (whole c ++ av.take (if l > 0 then ((writer c l (.fd av eof)).ret, (writer c l (.fd av eof)).ndropped,
-          (writer c l (.fd av eof)).c) else ((0 : Int), 0, c)).1.toNat) := by
+        (whole c ++ av.take (if l > 0 then ((writer c l (.fd av eof) pol).ret, (writer c l (.fd av eof) pol).ndropped,
+          (writer c l (.fd av eof) pol).c) else ((0 : Int), 0, c)).1.toNat) := by
   by_cases hl : l > 0
   · simp only [hl, if_true]
-    exact writer_whole hi l hl (.fd av eof) trivial
+    exact writer_whole hi l hl (.fd av eof) trivial pol
   · simp only [hl, if_false, Int.toNat_zero, List.take_zero]
     exact whole_unchanged hi
 
-theorem writeFromFd_whole {c : Cbuf} (hi : Inv c) (len : Int) (av : List UInt8) (eof : Bool) :
-    whole (writeFromFd c len av eof).2.2 =
-      Spec.lastN (writeFromFd c len av eof).2.2.size (whole c ++ av.take (writeFromFd c len av eof).1.toNat) := by
+theorem writeFromFd_whole {c : Cbuf} (hi : Inv c) (len : Int) (av : List UInt8) (eof : Bool)
+    (pol : Policy := chunkPolicy) [Admissible pol] :
+    whole (writeFromFd c len av eof pol).2.2 =
+      Spec.lastN (writeFromFd c len av eof pol).2.2.size
+        (whole c ++ av.take (writeFromFd c len av eof pol).1.toNat) := by
   have hm1 : ((-1 : Int)).toNat = 0 := rfl
   unfold writeFromFd
   by_cases h : len < -1
   · simp only [h, if_true, hm1, List.take_zero]
     exact whole_unchanged hi
   · simp only [h, if_false]
-    exact wfd_core hi _ av eof
+    exact wfd_core hi _ av eof pol
 
 theorem hist_flush (c : Cbuf) : hist (flush c) = [] := by
   simp [hist, flush, reused, circRead]
@@ -144,13 +168,13 @@ theorem hist_optSet (c : Cbuf) (v : Nat) : hist (optSet c v).2 = hist c := by
   unfold optSet
   split <;> rfl
 
-theorem hist_step_base {c : Cbuf} (hi : Inv c) (op : Op) :
-    hist (stepM c op).2 = histAfterBase (absR c) op (stepM c op).1 (abs (stepM c op).2) := by
-  have hi' := (step_refines hi op).2
+theorem hist_step_base {c : Cbuf} (hi : Inv c) (op : Op) (pol : Policy := chunkPolicy) [Admissible pol] :
+    hist (stepM c op pol).2 = histAfterBase (absR c) op (stepM c op pol).1 (abs (stepM c op pol).2) := by
+  have hi' := (step_refines hi op pol).2
   cases op with
-  | write bs => exact hist_write hi hi' _ (write_whole hi bs)
-  | writeFromFd len av eof => exact hist_write hi hi' _ (writeFromFd_whole hi len av eof)
-  | writeLine s => exact hist_write hi hi' _ (writeLine_refines hi s).2.2
+  | write bs => exact hist_write hi hi' _ (write_whole hi bs pol)
+  | writeFromFd len av eof => exact hist_write hi hi' _ (writeFromFd_whole hi len av eof pol)
+  | writeLine s => exact hist_write hi hi' _ (writeLine_refines hi s pol).2.2.1
   | read len => exact hist_consume hi hi' (consume_read c len).1 (consume_read c len).2
   | drop len => exact hist_consume hi hi' (consume_drop c len).1 (consume_drop c len).2
   | readLine len lines => exact hist_consume hi hi' (consume_readLine c len lines).1 (consume_readLine c len lines).2
@@ -160,17 +184,71 @@ theorem hist_step_base {c : Cbuf} (hi : Inv c) (op : Op) :
   | flush => exact hist_flush c
   | optSet v => exact hist_optSet c v
 
+/-! ### the flag component under the base operations -/
+
+theorem gotWrap_read (c : Cbuf) (len : Int) : (read c len).2.2.gotWrap = c.gotWrap := by
+  unfold read
+  split
+  · rfl
+  · split
+    · rfl
+    · simp only; split <;> rfl
+
+theorem gotWrap_drop (c : Cbuf) (len : Int) : (drop c len).2.gotWrap = c.gotWrap := by
+  unfold drop
+  split
+  · rfl
+  · split
+    · rfl
+    · simp only; split <;> rfl
+
+theorem gotWrap_readLine (c : Cbuf) (len lines : Int) : (readLine c len lines).2.2.gotWrap = c.gotWrap := by
+  unfold readLine
+  split
+  · rfl
+  · split
+    · rfl
+    · simp only; split <;> rfl
+
+theorem gotWrap_dropLine (c : Cbuf) (len lines : Int) : (dropLine c len lines).2.gotWrap = c.gotWrap := by
+  unfold dropLine
+  split
+  · rfl
+  · split
+    · rfl
+    · simp only; split <;> rfl
+
+theorem gotWrap_optSet (c : Cbuf) (v : Nat) : (optSet c v).2.gotWrap = c.gotWrap := by
+  unfold optSet
+  split <;> rfl
+
+theorem wrapped_step_base {c : Cbuf} (hi : Inv c) (op : Op) (pol : Policy := chunkPolicy) [Admissible pol] :
+    (stepM c op pol).2.gotWrap = wrappedAfterBase (absR c) op (stepM c op pol).1 (abs (stepM c op pol).2) := by
+  cases op with
+  | write bs => exact write_gotWrap hi bs pol
+  | writeFromFd len av eof => exact writeFromFd_gotWrap hi len av eof pol
+  | writeLine s => exact writeLine_gotWrap hi s pol
+  | read len => exact gotWrap_read c len
+  | drop len => exact gotWrap_drop c len
+  | readLine len lines => exact gotWrap_readLine c len lines
+  | dropLine len lines => exact gotWrap_dropLine c len lines
+  | peek len => rfl
+  | peekLine len lines => rfl
+  | flush => rfl
+  | optSet v => exact gotWrap_optSet c v
+
 /-! ### step-wise and history refinement -/
 
-theorem stepR_refines {c : Cbuf} (hi : Inv c) (op : OpR) :
-    stepSR (absR c) op (stepMR c op).1.ret (stepMR c op).2.size = some ((stepMR c op).1, absR (stepMR c op).2) ∧
-    Inv (stepMR c op).2 := by
+theorem stepR_refines {c : Cbuf} (hi : Inv c) (op : OpR) (pol : Policy := chunkPolicy) [Admissible pol] :
+    stepSR (absR c) op (stepMR c op pol).1.ret (stepMR c op pol).2.size =
+      some ((stepMR c op pol).1, absR (stepMR c op pol).2) ∧
+    Inv (stepMR c op pol).2 := by
   cases op with
   | base op =>
-    obtain ⟨h1, h2⟩ := step_refines hi op
+    obtain ⟨h1, h2⟩ := step_refines hi op pol
     refine ⟨?_, h2⟩
     simp only [stepSR, stepMR, absR_f, h1, Option.map_some]
-    rw [← hist_step_base hi op]
+    rw [← hist_step_base hi op pol, ← wrapped_step_base hi op pol]
     rfl
   | replay len =>
     simp only [stepSR, stepMR, ← replay_refines hi len]
@@ -189,10 +267,18 @@ theorem stepR_refines {c : Cbuf} (hi : Inv c) (op : OpR) :
   | replayToFd len cap =>
     simp only [stepSR, stepMR, ← replayToFd_refines hi len cap]
     exact ⟨trivial, hi⟩
+  | replayLine len lines =>
+    simp only [stepSR, stepMR, ← replayLine_refines hi len lines]
+    exact ⟨trivial, hi⟩
+  | rewindLine len lines =>
+    obtain ⟨h1, h2, h3⟩ := rewindLine_refines hi len lines
+    simp only [stepSR, stepMR]
+    exact ⟨by rw [← h1, ← h2], h3⟩
 
-def runMR (c : Cbuf) : List OpR → List Out × Cbuf
+def runMR (c : Cbuf) (ops : List OpR) (pol : Policy := chunkPolicy) : List Out × Cbuf :=
+  match ops with
   | [] => ([], c)
-  | op :: ops => let (o, c') := stepMR c op; let (os, c'') := runMR c' ops; (o :: os, c'')
+  | op :: ops => let (o, c') := stepMR c op pol; let (os, c'') := runMR c' ops pol; (o :: os, c'')
 
 def acceptSR (r : Spec.RFifo) : List (OpR × Out × Nat) → Option Spec.RFifo
   | [] => some r
@@ -201,17 +287,46 @@ def acceptSR (r : Spec.RFifo) : List (OpR × Out × Nat) → Option Spec.RFifo
     | some (o', r') => if o' = o then acceptSR r' rest else none
     | none => none
 
-def traceMR (c : Cbuf) : List OpR → List (OpR × Out × Nat)
+def traceMR (c : Cbuf) (ops : List OpR) (pol : Policy := chunkPolicy) : List (OpR × Out × Nat) :=
+  match ops with
   | [] => []
-  | op :: ops => (op, (stepMR c op).1, (stepMR c op).2.size) :: traceMR (stepMR c op).2 ops
+  | op :: ops => (op, (stepMR c op pol).1, (stepMR c op pol).2.size) :: traceMR (stepMR c op pol).2 ops pol
 
-theorem runR_refines {c : Cbuf} (hi : Inv c) (ops : List OpR) :
-    acceptSR (absR c) (traceMR c ops) = some (absR (runMR c ops).2) ∧ Inv (runMR c ops).2 := by
+theorem runR_refines {c : Cbuf} (hi : Inv c) (ops : List OpR) (pol : Policy := chunkPolicy) [Admissible pol] :
+    acceptSR (absR c) (traceMR c ops pol) = some (absR (runMR c ops pol).2) ∧ Inv (runMR c ops pol).2 := by
   induction ops generalizing c with
   | nil => exact ⟨rfl, hi⟩
   | cons op ops ih =>
-    obtain ⟨h1, h2⟩ := stepR_refines hi op
+    obtain ⟨h1, h2⟩ := stepR_refines hi op pol
     simp only [traceMR, acceptSR, h1, if_true, runMR]
+    exact ih h2
+
+/-! ### a different admissible policy at every step (the driver follows the choices it observes) -/
+
+/-- a growth policy together with the proof that it is admissible -/
+structure APolicy where
+  pol : Policy
+  adm : Admissible pol
+
+instance : Inhabited APolicy := ⟨⟨chunkPolicy, inferInstance⟩⟩
+
+def runMRp (c : Cbuf) : List (APolicy × OpR) → List Out × Cbuf
+  | [] => ([], c)
+  | (p, op) :: ops => let (o, c') := stepMR c op p.pol; let (os, c'') := runMRp c' ops; (o :: os, c'')
+
+def traceMRp (c : Cbuf) : List (APolicy × OpR) → List (OpR × Out × Nat)
+  | [] => []
+  | (p, op) :: ops => (op, (stepMR c op p.pol).1, (stepMR c op p.pol).2.size) :: traceMRp (stepMR c op p.pol).2 ops
+
+theorem runRp_refines {c : Cbuf} (hi : Inv c) (ops : List (APolicy × OpR)) :
+    acceptSR (absR c) (traceMRp c ops) = some (absR (runMRp c ops).2) ∧ Inv (runMRp c ops).2 := by
+  induction ops generalizing c with
+  | nil => exact ⟨rfl, hi⟩
+  | cons pop ops ih =>
+    obtain ⟨p, op⟩ := pop
+    haveI := p.adm
+    obtain ⟨h1, h2⟩ := stepR_refines hi op p.pol
+    simp only [traceMRp, acceptSR, h1, if_true, runMRp]
     exact ih h2
 
 end PdshVerif.Cbuf
